@@ -15,10 +15,16 @@ def main():
             b, out = cargo_build(crate, p)
             if b is None:
                 print(out[-3000:]); rc = 1
+    # generated programs of the quick tier for the seed the checks will be called with
     try:
-        import props_setup
-        rc |= props_setup.main()
-    except ImportError:
-        pass
+        from gen import driver as D
+        seed = int(os.environ.get("VERIF_SEED", "1") or 1)
+        progs = D.programs_for(seed, "quick")
+        for prof in ("dev", "release"):
+            where, out = D.build(progs, "quick", prof)
+            if where is None:
+                print(out[-3000:]); rc = 1
+    except Exception as e:  # noqa
+        print("gen setup failed:", e); rc = 1
     print("setup done rc=%d" % rc)
     return rc
